@@ -37,6 +37,8 @@
 import ChialispModel.Props.C01
 import ChialispModel.Proofs.ClassicEnvLemmas
 import ChialispModel.Proofs.NodePathSigned
+import ChialispModel.Opt.Classic
+import ChialispModel.Proofs.OptRefine
 
 namespace C03
 open ClassicEnv
@@ -281,5 +283,43 @@ theorem classic_env_paths_correct_no_constants (pat : Rich) (hok : classicPatOk 
   exact symbol_table_first_entry_correct pat hok 1 (by omega) args args (PathAlg.lookupNat_one args) ρ hb name pb hf
 
 example : firstSymbol [89] (allSymbols (patVal (.cons (.atom [88]) (.cons (.atom [89]) .nil))) []) = some [5] := by decide
+
+/-! ### the optimiser's variable-change step, reached from classic SOURCE (finding C03-F1)
+
+  `(mod (XX YY) (a (mod (A1 A2 A3 A4 A5 A6 A7) (+ A7 1)) YY))`: the classic compiler hands
+  `(a (q . (+ 0xbf (q . 1))) 5)` to its optimiser (`0xbf` = 191 is the path of the 7th parameter, `5` the
+  path of `YY`).  `path_from_args` reads `0xbf` as −65 ≤ 1 and puts the whole argument expression `5` there:
+  the emitted program is `(+ 5 (q . 1))` (byte-identical to the real compiler's output `ff10ff05ffff010180`).
+  On `(99 (1 2 3 4 5 6 700))` the form before the step returns 701, which is what the source means; the
+  emitted form fails.  The general statement about `sub_args` is C04's (`C04.optimize_counterexample_sub_args_neg`,
+  `C04.optimize_sound_partial` with the flag `sub-args-neg` as hypothesis); this is its source-level instance. -/
+
+private def rerootArgs : Val :=
+  .pair (.atom [99]) (.pair
+    (.pair (.atom [1]) (.pair (.atom [2]) (.pair (.atom [3]) (.pair (.atom [4]) (.pair (.atom [5]) (.pair (.atom [6])
+      (.pair (.atom [0x02, 0xbc]) (.atom []))))))))
+    (.atom []))
+
+private def rerootBefore : Val :=      -- (a (q . (+ 0xbf (q . 1))) 5)
+  .pair (.atom [2]) (.pair (.pair (.atom [1]) (.pair (.atom [16]) (.pair (.atom [0xbf]) (.pair (.pair (.atom [1]) (.atom [1])) (.atom [])))))
+    (.pair (.atom [5]) (.atom [])))
+
+private def rerootAfter : Val :=       -- (+ 5 (q . 1))
+  .pair (.atom [16]) (.pair (.atom [5]) (.pair (.pair (.atom [1]) (.atom [1])) (.atom [])))
+
+theorem reroot_seventh_parameter_counterexample :
+    Clvm.evalC Ops.chiaOps 8 rerootBefore rerootArgs = .ok (.atom [0x02, 0xbd]) ∧
+    Opt.optimizeSexp Ops.chiaOps false 6 6 rerootBefore = .ok rerootAfter ∧
+    (Clvm.evalC Ops.chiaOps 8 rerootAfter rerootArgs).isFail = true ∧
+    Opt.optimizeSexp Ops.chiaOps true 6 6 rerootBefore = .error (.fail "FLAG:sub-args-neg") := by
+  decide
+
+/-- non-vacuity / control: with SIX inner parameters (path `0x5f`, top bit clear) the same step is right. -/
+example :
+    Opt.optimizeSexp Ops.chiaOps true 12 12
+      (.pair (.atom [2]) (.pair (.pair (.atom [1]) (.pair (.atom [16]) (.pair (.atom [0x5f]) (.pair (.pair (.atom [1]) (.atom [1])) (.atom [])))))
+        (.pair (.atom [5]) (.atom []))))
+      = .ok (.pair (.atom [16]) (.pair (.atom [0x01, 0x7d]) (.pair (.pair (.atom [1]) (.atom [1])) (.atom [])))) := by
+  decide
 
 end C03
